@@ -1,7 +1,7 @@
 (* C03 — Replay window: a captured datagram dies within two housekeeping ticks.
    Pinned statements only.  Counters are >= 1 (a sender increments before its first seal; the
    all-zero nonce is never produced), which is the `pos_hist` premise. *)
-From VpnModel Require Import Base Nonce Replay ReplayProofs Core CoreProofs.
+From VpnModel Require Import Base Nonce Replay ReplayProofs Core CoreProofs Conn PeerCrypto NodeInfo Table Node TickProofs NextHopProofs TickPeersProofs.
 
 (* T1: for every history of deliveries and ticks the three-register window accepts exactly the
    deliveries the history-only reference accepts: counter greater than every counter accepted
@@ -59,6 +59,26 @@ Theorem C03_core_rotate_fresh : forall c k id use r, wf_core c ->
   current (core_rotate c k id use r) = (if use then id mod 4 else current c).
 Proof. exact rotate_fresh_window. Qed.
 
+(* T5 (connection object): every housekeeping second PeerCrypto::every_second moves the window of every key slot of a connection that has
+   a crypto core - whatever the handshake object or the key rotation do in that second (a slot may instead be re-keyed: fresh window) *)
+Theorem C03_every_second_ticks_windows : forall p c, pc_core p = Some c -> wf_core c ->
+  exists c', pc_core (fst (fst (pc_every_second p))) = Some c' /\ wf_core c' /\
+             forall i, i < 4 -> s_win (get_slot c' i) = tick (s_win (get_slot c i)) \/ s_win (get_slot c' i) = win0.
+Proof. exact every_second_ticks_windows. Qed.
+
+(* T6 (node): one housekeeping pass over the peers applies every_second exactly once to every peer and touches nothing else,
+   in every state a node can reach (the peer map never lists an address twice) *)
+Theorem C03_tick_peers_once : forall n, NoDup (map fst (n_peers n)) ->
+  (forall a, aget (n_peers (fst (fst (tick_peers n)))) a = option_map tick_pd (aget (n_peers n) a)) /\
+  n_pending (fst (fst (tick_peers n))) = n_pending n /\ n_table (fst (fst (tick_peers n))) = n_table n.
+Proof. exact tick_peers_ticks_each_once. Qed.
+
+Theorem C03_reachable_tick_peers_once : forall salts c t0 evs,
+  let n := nrun salts (node_new c t0) evs in
+  NoDup (map fst (n_peers n)) /\ NoDup (map fst (n_pending n)) /\
+  forall a, aget (n_peers (fst (fst (tick_peers n)))) a = option_map tick_pd (aget (n_peers n) a).
+Proof. exact reachable_tick_peers_once_full. Qed.
+
 (* non-vacuity *)
 Example C03_ex_history :
   fst (run win0 [Deliver 5; Deliver 3; Tick; Deliver 4; Tick; Deliver 4; Deliver 6; Tick; Deliver 5; Deliver 7])
@@ -66,6 +86,9 @@ Example C03_ex_history :
 Proof. vm_compute. reflexivity. Qed.
 Example C03_ex_pos : pos_hist [Deliver 5; Deliver 3; Tick; Deliver 4].
 Proof. repeat constructor; discriminate. Qed.
+
+Example C03_ex_node_tick : map fst (n_peers (fst (fst (tick_peers ex_b)))) = [1001].
+Proof. exact ex_tick_peers. Qed.
 
 Print Assumptions C03_accept_iff.
 Print Assumptions C03_invariant.
@@ -76,3 +99,6 @@ Print Assumptions C03_core_window_moves.
 Print Assumptions C03_core_reject_unchanged.
 Print Assumptions C03_core_tick.
 Print Assumptions C03_core_rotate_fresh.
+Print Assumptions C03_every_second_ticks_windows.
+Print Assumptions C03_tick_peers_once.
+Print Assumptions C03_reachable_tick_peers_once.
